@@ -1,6 +1,141 @@
 package main
 
-import "github.com/tencent/goom/verifharness/hxlib"
+import (
+	"sort"
+	"sync"
+	"sync/atomic"
+
+	mocker "github.com/tencent/goom"
+	"github.com/tencent/goom/verifharness/hxlib"
+	"github.com/tencent/goom/verifharness/zoo/fnzoo"
+)
+
+type concCall struct {
+	start, end int64
+	idx        int
+}
+
+// stubConc: G goroutines call one stub that carries a result sequence; stamps come from one atomic ticket counter
+// taken immediately before and after each call, so end(a) < start(b) implies a completed before b started.
+func stubConc(c *common, rng *hxlib.Rng, out *hxlib.Out) int {
+	rounds := 200
+	if c.tier == "thorough" {
+		rounds = 5000
+	}
+	if c.n > 0 {
+		rounds = c.n
+	}
+	for r := 0; r < rounds; r++ {
+		n := 2 + rng.Intn(30)
+		if r%5 == 0 {
+			n = 2 + rng.Intn(3)
+		}
+		g := []int{2, 4, 8, 16}[rng.Intn(4)]
+		per := 1 + (n*2)/g + rng.Intn(6)
+		b := mocker.Create()
+		vs := make([]interface{}, n)
+		for i := range vs {
+			vs[i] = 100 + i
+		}
+		form := rng.Intn(3)
+		switch form {
+		case 0:
+			b.Func(fnzoo.F1).Returns(vs...)
+		case 1:
+			w := b.Func(fnzoo.F1).Return(vs[0])
+			for _, v := range vs[1:] {
+				w = w.AndReturn(v)
+			}
+		default: // sequence on a condition
+			b.Func(fnzoo.F1).Return(-5).When(7).Returns(vs...)
+		}
+		var ticket int64
+		var start int32
+		calls := make([][]concCall, g)
+		bad := int32(0)
+		var wg sync.WaitGroup
+		for t := 0; t < g; t++ {
+			wg.Add(1)
+			go func(t int) {
+				defer wg.Done()
+				defer func() {
+					if e := recover(); e != nil {
+						atomic.AddInt32(&bad, 1)
+					}
+				}()
+				for atomic.LoadInt32(&start) == 0 {
+				}
+				for i := 0; i < per; i++ {
+					s := atomic.AddInt64(&ticket, 1)
+					v := fnzoo.F1(7)
+					e := atomic.AddInt64(&ticket, 1)
+					calls[t] = append(calls[t], concCall{s, e, v - 100})
+				}
+			}(t)
+		}
+		atomic.StoreInt32(&start, 1)
+		wg.Wait()
+		// one more call after quiescence must see the last element iff the sequence was exhausted
+		final := fnzoo.F1(7) - 100
+		b.Reset()
+		var all []concCall
+		for _, cs := range calls {
+			all = append(all, cs...)
+		}
+		outOfRange, backwards, unsticky := 0, 0, 0
+		var first interface{}
+		for _, cl := range all {
+			if cl.idx < 0 || cl.idx >= n {
+				outOfRange++
+				if first == nil {
+					first = map[string]interface{}{"why": "out of range", "idx": cl.idx, "n": n}
+				}
+			}
+		}
+		byEnd := append([]concCall{}, all...)
+		sort.Slice(byEnd, func(i, j int) bool { return byEnd[i].end < byEnd[j].end })
+		byStart := append([]concCall{}, all...)
+		sort.Slice(byStart, func(i, j int) bool { return byStart[i].start < byStart[j].start })
+		maxIdx, k := -1, 0
+		for _, bcall := range byStart {
+			for k < len(byEnd) && byEnd[k].end < bcall.start {
+				if byEnd[k].idx > maxIdx {
+					maxIdx = byEnd[k].idx
+				}
+				k++
+			}
+			if maxIdx >= 0 && bcall.idx < maxIdx {
+				backwards++
+				if first == nil {
+					first = map[string]interface{}{"why": "position went backwards", "earlier_idx": maxIdx, "later_idx": bcall.idx, "n": n}
+				}
+			}
+			if maxIdx == n-1 && bcall.idx != n-1 {
+				unsticky++
+			}
+		}
+		// per goroutine the sequence of positions must be non-decreasing (a goroutine's calls are sequential)
+		for _, cs := range calls {
+			for i := 1; i < len(cs); i++ {
+				if cs[i].idx < cs[i-1].idx {
+					backwards++
+					if first == nil {
+						first = map[string]interface{}{"why": "one goroutine saw positions go backwards", "earlier_idx": cs[i-1].idx, "later_idx": cs[i].idx, "n": n}
+					}
+				}
+			}
+		}
+		exhausted := false
+		for _, cl := range all {
+			if cl.idx == n-1 {
+				exhausted = true
+			}
+		}
+		finalBad := exhausted && final != n-1
+		out.Put(map[string]interface{}{"kind": "conc", "n": n, "g": g, "per": per, "form": form, "calls": len(all), "panics": bad,
+			"out_of_range": outOfRange, "backwards": backwards, "unsticky": unsticky, "final_bad": finalBad, "first": first})
+	}
+	return 0
+}
 
 func stubC12(c *common, rng *hxlib.Rng, out *hxlib.Out) int { return 0 }
-func stubConc(c *common, rng *hxlib.Rng, out *hxlib.Out) int { return 0 }
